@@ -166,7 +166,11 @@ impl<'a, T: Read + Seek> QueueReader<'a, T> {
                     self.reader
                         .read_exact(&mut self.buffer)
                         .read_err("Failed to read data packet buffers")?;
-                    self.byte_streams[i].append(&self.buffer);
+                    // Nothing is ever decoded from the byte stream of a record without bits.
+                    // Keeping its bytes would copy them again with every following packet.
+                    if self.constants[i].is_none() {
+                        self.byte_streams[i].append(&self.buffer);
+                    }
                 }
 
                 self.parse_byte_streams()?;
